@@ -104,7 +104,7 @@ type ContractSet struct {
 	Assumes   []string // textual list of assumed contracts (for evidence)
 }
 
-var keywordRe = regexp.MustCompile(`^(package|func|fieldfunc|assume|lemma|ghost|pred|spec|requires|ensures|modifies|panics_if|let|loop|invariant|free_invariant|decreases|exit_assert|props|encoder|nopanic|may_panic|return_assert|cover|bounded|assert|opt)\b`)
+var keywordRe = regexp.MustCompile(`^(package|opaque|func|fieldfunc|assume|lemma|ghost|pred|spec|requires|ensures|modifies|panics_if|let|loop|invariant|free_invariant|decreases|exit_assert|props|encoder|nopanic|may_panic|return_assert|cover|bounded|assert|opt)\b`)
 
 // readContractFile extracts //@ lines and parses them.
 func (cs *ContractSet) readContractFile(path, pkgPath string) error {
@@ -195,10 +195,25 @@ func (cs *ContractSet) readContractFile(path, pkgPath string) error {
 				cs.Assumes = append(cs.Assumes, hdr)
 			}
 			cur, curLoop = c, nil
-		case "ghost", "pred", "spec":
+		case "ghost", "pred", "spec", "opaque":
+			opaque := kw == "opaque"
+			if opaque {
+				// opaque spec f(...) T = body: kept as an uninterpreted function with
+				// a defining axiom (like a recursive spec) instead of being expanded
+				// at every use; keeps quantified formulas over a large body small
+				f := strings.Fields(rest)
+				if len(f) == 0 || (f[0] != "spec" && f[0] != "pred") {
+					return fmt.Errorf("%s:%d: opaque must be followed by spec or pred", path, l.n)
+				}
+				kw = f[0]
+				rest = strings.TrimSpace(strings.TrimPrefix(rest, f[0]))
+			}
 			sp, err := parseSpec(kw, rest)
 			if err != nil {
 				return fmt.Errorf("%s:%d: %v", path, l.n, err)
+			}
+			if opaque {
+				sp.Rec = true
 			}
 			sp.PkgPath, sp.File, sp.Line = pkgPath, path, l.n
 			cs.Specs[pkgPath+"."+sp.Name] = sp
